@@ -190,6 +190,68 @@ def guard_case(args):
     return (None, None, None, True)
 
 
+def multi_guard_case(args):
+    """several buffers, some dirty, some of their files replaced or touched on disk behind the editor's back, then a
+    save command without '!': a file changed on disk since it was read is never replaced, whichever buffer is current"""
+    vi, so, idx = args
+    R = rng('c03', 'multi', idx)
+    T0 = 1500000000
+    nf = R.choice([2, 2, 3])
+    names = ['f%d' % i for i in range(1, nf + 1)]
+    files = {n: ('%s one\n%s two\n' % (n, n)).encode() for n in names}
+    files['alt'] = b'WRITTEN BY SOMEBODY ELSE\n'
+    mt = {n: T0 for n in names}
+    ondisk = dict(files)
+    written = set()
+    dirty = {n: R.random() < 0.75 for n in names}
+    ext = {n: R.choice([None, None, 'cp', 'touch']) for n in names}
+    if not any(ext.values()):
+        ext[R.choice(names)] = R.choice(['cp', 'touch'])
+    order = names[1:]
+    R.shuffle(order)
+    script = b''
+    if dirty['f1']:
+        script += b'1s/^/D /\n'
+    for n in order:
+        script += b'e! %s\n' % n.encode()
+        if dirty[n]:
+            script += b'1s/^/D /\n'
+    cur = order[-1]
+    if R.random() < 0.5:
+        cur = R.choice(names)
+        script += b'e! %s\n' % cur.encode()                    # any buffer may be the current one
+    if R.random() < 0.3:
+        script += b'w\n'                                       # the current buffer's recorded time is refreshed first
+        if dirty[cur]:
+            ondisk[cur] = b'D ' + files[cur]
+        dirty[cur] = False
+        written.add(cur)
+    for n in names:
+        if ext[n]:
+            if n in written:      # its recorded time is this very second: only a visibly newer time can be told apart
+                script += (b'rx z repl %s\n' if ext[n] == 'cp' else b'rx z future %s\n') % n.encode()
+            else:                 # recorded time T0 (2017): a change made now is newer
+                script += (b'rx z cp alt %s\n' if ext[n] == 'cp' else b'rx z touch %s\n') % n.encode()    # (:! is refused while the buffer is modified)
+    cmd = R.choice([b'xa', b'xa', b'xa', b'wq', b'x', b'w'])
+    script += b'ec ' + S(0) + b'\n' + cmd + b'\nec ' + S(1) + b'\n' + cmd + b'\nec ' + S(2) + b'\n'
+    r, d, lg = run_ex(vi, so, script + b'q!\n', files, None, mt)
+    got = {n: common.readf(d, n) for n in names}
+    common.rmcase(d)
+    wit = {'index': idx, 'script': script, 'dirty': dirty, 'changed_on_disk': ext}
+    if S(0) not in r.out or r.timed_out:
+        return ('inconclusive', None, wit)
+    for n in names:
+        if not ext[n]:
+            continue
+        keep = files['alt'] if ext[n] == 'cp' else ondisk[n]
+        if got[n] != keep:
+            return ('guard:clobbered', '%d buffers, %s %s on disk after it was read, then :%s (twice): the file was replaced by %r' % (
+                nf, n, 'replaced' if ext[n] == 'cp' else 'touched', cmd.decode(), common.show(got[n] or b'', 50)), wit)
+    if S(1) not in r.out and any(dirty[n] and ext[n] for n in names):
+        return ('guard:quit-despite-refusal', '%d buffers, dirty %s changed on disk %s, :%s exited' % (nf, dirty, ext, cmd.decode()), wit)
+    return ('ok' if any(dirty[n] and ext[n] for n in names) else 'ok-trivial', None, wit)
+
+
 def run(tier, V):
     vi = build('plain')
     so = build_shim()
@@ -242,11 +304,21 @@ def run(tier, V):
     for key, what, wit, ok in gres:
         if key:
             V.violation(key, what, wit)
-    cov = {'evaluations': len(jobs) + len(gjobs), 'distinct_nontrivial': fired + len(gjobs), 'faults_injected_and_fired': fired, 'fault_runs': len(jobs),
+    nm = 150 if tier == 'quick' else 2000
+    mres = pmap(multi_guard_case, [(vi, so, common.seed() * 1000003 + i) for i in range(nm)])
+    mok = 0
+    for key, what, wit in mres:
+        if key == 'inconclusive':
+            V.inconclusive += 1
+        elif key == 'ok':
+            mok += 1
+        elif key != 'ok-trivial':
+            V.violation(key, what, wit)
+    cov = {'evaluations': len(jobs) + len(gjobs) + nm, 'distinct_nontrivial': fired + len(gjobs) + mok, 'multi_buffer_guard_scenarios': nm, 'multi_buffer_scenarios_with_a_dirty_changed_file': mok, 'faults_injected_and_fired': fired, 'fault_runs': len(jobs),
            'syscall_sequences': seqs, 'guard_cases': [g[2] for g in gjobs], 'exhaustive': True,
            'rule': ('for each buffer shape (empty / one line / one batch / several batches / lines >= 4096 / mixture) and save command, a dry run under the shim gives the open/write/close sequence of the save; '
                     'then EVERY position x EVERY kind (%s error returns; short counts 1, half, len-1) is injected, one fault per run (2 processes per fault: inspect file after the command; continue with :q, :b, :w!, :q). '
-                    'non-trivial = the shim log shows the fault fired (INJECTED).  guards: full truth table target {own, foreign-existing, absent} x mtime {older, equal, newer} x {w, w!}.' % ','.join(err_kinds)),
+                    'non-trivial = the shim log shows the fault fired (INJECTED).  guards: full truth table target {own, foreign-existing, absent} x mtime {older, equal, newer} x {w, w!}; + random scenarios with 2-3 buffers, files replaced/touched behind the editor, any buffer current, then w/wq/x/xa without !.' % ','.join(err_kinds)),
            'samples': [{'buffer': j[2], 'command': j[6], 'fault': j[7]} for j in jobs[::max(1, len(jobs) // 5)]][:6]}
     assumptions = ['a save fd is a descriptor opened with O_WRONLY|O_CREAT; ftruncate faults are outside the quantifier (open/write/close)',
                    'the retry after a failure is :w! (a torn write legitimately advanced the file\'s mtime)',
